@@ -142,18 +142,45 @@ func monRawClient(prop string) Monitor {
 		if probe == 0 {
 			probe = hangup
 		}
+		// a graceful shutdown initiated during the conversation: streams whose new_stream is processed
+		// afterwards are refused (once, with Unavailable, no handler) and their ids are finished with
+		shutdownAt := -1
+		for i, ev := range c.Events {
+			if ev.Kind == "initiate_shutdown" && i < len(tr.Events) && tr.Events[i].Fired >= 0 {
+				shutdownAt = tr.Events[i].Fired
+			}
+		}
 		for _, ex := range raw.Expect {
 			k, onWire := ix.keyOf[ex.Tag]
 			closeCode, closes := int32(-1), 0
+			nsRecv := -1
 			if onWire {
 				for _, f := range ix.byStream[k] {
 					if f.F.Kind == "close" && f.SendErr == "" {
 						closes++
 						closeCode = f.F.Code
 					}
+					if f.F.Kind == "new_stream" && f.SendErr == "" && nsRecv < 0 {
+						nsRecv = f.Received
+					}
 				}
 			}
 			sp := &c.RPCs[ex.Tag]
+			if shutdownAt >= 0 && onWire && nsRecv >= shutdownAt {
+				if nsRecv == shutdownAt {
+					continue // processed in the very step of the shutdown call: either way
+				}
+				invoked := 0
+				for _, inv := range tr.Invocations {
+					if inv.RPC == ex.Tag {
+						invoked++
+					}
+				}
+				if closes != 1 || closeCode != 14 || invoked != 0 {
+					add("C08", "refused_stream_not_rejected_once", hangup, "rpc %d (new_stream processed at step %d, after InitiateShutdown at step %d) got %d close frame(s) (last code %d) and %d handler invocation(s); want exactly one rejection with Unavailable", ex.Tag, nsRecv, shutdownAt, closes, closeCode, invoked)
+				}
+				continue
+			}
 			if ex.Clean {
 				if !onWire {
 					continue
